@@ -121,11 +121,25 @@ def run_case(spec, inputs=None):
         if any((cnt.get(k, 0) <= 10) != (cnt2[k] <= 10) or (k not in cnt) for k in cnt2):
             cls += "+district-set-changes"
     runs = []
+    night = None
+    if inputs is None and (spec["i"] // 3) % 3 == 1 and not special and "padded_id" not in kinds:
+        # history: ONE client for the night.  Earlier it answered a poll whose baseline file still listed the extra
+        # units as ordinary (expected) units; the file has been corrected since (precincts merged away), so for the
+        # two polls judged here the same ids arrive without a baseline.
+        night = _warm_client(el, feed2, call, extras, est)
+        out["counters"]["pairs_on_a_client_that_knew_the_units_as_expected"] = 1
     for fd in (feed, feed2):
         with harness.patched() as p:
             if est == "gaussian":
                 harness.fast_boot_sigma(p)
-            runs.append(harness.run_estimates(el, fd, call, want_client=True))
+            r_, e_, c_ = harness.run_estimates(el, fd, call, want_client=True, client=night)
+            if night is not None:
+                # both polls are answered by one client object: keep what THIS poll left on it (the client builds a
+                # new model and results handler for every poll)
+                import types
+
+                c_ = types.SimpleNamespace(model=c_.model, results_handler=getattr(c_, "results_handler", None))
+            runs.append((r_, e_, c_))
     (r1, e1, c1), (r2, e2, c2) = runs
     cm = harness.client_mod()
     if e1 is not None:
@@ -281,6 +295,42 @@ def run_case(spec, inputs=None):
 
 
 FLOAT_TOL = {"on": False}
+
+
+def _warm_client(el, feed2, call, extras, est):
+    import copy
+
+    cm = harness.client_mod()
+    warm = copy.deepcopy(el)
+    rows = []
+    for e in extras:
+        same = warm.pre[warm.pre.postal_code == e["postal_code"]]
+        if not len(same):
+            continue
+        r = same.iloc[0].copy()
+        f = e["geographic_unit_fips"]
+        parts = f.split("_")
+        r["geographic_unit_fips"] = f
+        if el.district and len(parts) >= 2:
+            r["district"], r["county_fips"] = type(r["district"])(parts[0]), parts[1]
+        elif el.geo_type == "county":
+            r["county_fips"] = f
+        else:
+            r["county_fips"] = parts[0]
+        rows.append(r)
+    if rows:
+        warm.pre = pd.concat([warm.pre, pd.DataFrame(rows)]).reset_index(drop=True)
+        for c in el.pre.columns:
+            try:
+                warm.pre[c] = warm.pre[c].astype(el.pre[c].dtype)
+            except (TypeError, ValueError):
+                pass
+    client = cm.ModelClient()
+    with harness.patched() as p:
+        if est == "gaussian":
+            harness.fast_boot_sigma(p)
+        harness.run_estimates(warm, feed2, call, client=client)  # outcome not judged: it only gives the client a past
+    return client
 
 
 def _eq(a, b):
